@@ -13,7 +13,7 @@ RULE = ("byte snapshots of every argument before/after calls of ticc_labels, tic
         "callbacks, C/F/float32/int data; every call is repeated with all array arguments read-only and must give the same outcome; "
         "non-trivial = a call with >=1 array-valued hyper-parameter or a failing call; distinct by case hash")
 ASSUMPTIONS = ["a write into a read-only array raises at the faulting line (NumPy's own watch-point)"]
-SHARD_TIMEOUT = {"quick": 900, "thorough": 3400}
+SHARD_TIMEOUT = {"quick": 300, "thorough": 3400}
 
 
 def plan(tier, seed):
